@@ -328,7 +328,7 @@ def render (m : Module) : Str :=
   attrsSrc m.tenumAttrs ++ L "pub enum " ++ T ++ L " {\n" ++
   indent 1 (joinNl (m.tenumVariants.map fun (v, ty) => v ++ L "(" ++ ty ++ L "),")) ++ L "\n}\n\n" ++
   joinNlNl (m.types.map typeDefSrc) ++
-  L "\n\n/// If the parser encounters an unexpected token `t`, it will return `Err(Some(t))`.\n/// If the parser encounters an unexpected end of input, it will return `Err(None)`.\npub fn parse<" ++ n.parseParam ++ L ">(src: " ++ n.parseParam ++ L ") -> Result<" ++ m.startType ++ L ", Option<" ++ T ++ L ">>\nwhere " ++ n.parseParam ++ L ": IntoIterator<Item = " ++ T ++ L "> {\n    let mut quasiterminals = src.into_iter()\n        .map(" ++ n.quasiterminal ++ L "::Terminal)\n        .chain(std::iter::once(" ++ n.quasiterminal ++ L "::Eof))\n        .peekable();\n    let mut states = vec![" ++ n.state ++ L "::S" ++ natToStr m.startState ++ L "];\n    let mut nodes: Vec<" ++ n.node ++ L "> = vec![];\n    loop {\n        let top_state = *states.last().unwrap();\n        let next_quasiterminal_kind = " ++ n.quasiterminalKind ++ L "::from_quasiterminal(quasiterminals.peek().unwrap());\n        match get_action(top_state, next_quasiterminal_kind) {\n            " ++ n.action ++ L "::Shift(new_state) => {\n                states.push(new_state);\n                nodes.push(" ++ n.node ++ L "::from_terminal(quasiterminals.next().unwrap().try_into_terminal().unwrap()));\n            }\n\n            " ++ n.action ++ L "::Reduce(rule_kind) => {\n                let (new_node, new_node_kind) = pop_and_reduce(&mut states, &mut nodes, rule_kind);\n                nodes.push(new_node);\n                let temp_top_state = *states.last().unwrap();\n                let Some(new_state) = get_goto(temp_top_state, new_node_kind) else {\n                    return Err(quasiterminals.next().unwrap().try_into_terminal().ok());\n                };\n                states.push(new_state);\n            }\n\n            " ++ n.action ++ L "::Accept => {\n                return Ok(" ++ m.startType ++ L "::try_from(nodes.pop().unwrap()).ok().unwrap());\n            }\n\n            " ++ n.action ++ L "::Err => {\n                return Err(quasiterminals.next().unwrap().try_into_terminal().ok());\n            }\n        }\n    }\n}\n\nenum " ++ n.quasiterminal ++ L " {\n    Terminal(" ++ T ++ L "),\n    " ++ n.eof ++ L ",\n}\n\n#[derive(Clone, Copy, Debug)]\nenum " ++ n.quasiterminalKind ++ L " {\n" ++
+  L "\n\n/// If the parser encounters an unexpected token `t`, it will return `Err(Some(t))`.\n/// If the parser encounters an unexpected end of input, it will return `Err(None)`.\npub fn parse<" ++ n.parseParam ++ L ">(src: " ++ n.parseParam ++ L ") -> Result<" ++ m.startType ++ L ", Option<" ++ T ++ L ">>\nwhere " ++ n.parseParam ++ L ": IntoIterator<Item = " ++ T ++ L "> {\n    let mut quasiterminals = src.into_iter()\n        .map(" ++ n.quasiterminal ++ L "::Terminal)\n        .chain(std::iter::once(" ++ n.quasiterminal ++ L "::" ++ n.eof ++ L "))\n        .peekable();\n    let mut states = vec![" ++ n.state ++ L "::S" ++ natToStr m.startState ++ L "];\n    let mut nodes: Vec<" ++ n.node ++ L "> = vec![];\n    loop {\n        let top_state = *states.last().unwrap();\n        let next_quasiterminal_kind = " ++ n.quasiterminalKind ++ L "::from_quasiterminal(quasiterminals.peek().unwrap());\n        match get_action(top_state, next_quasiterminal_kind) {\n            " ++ n.action ++ L "::Shift(new_state) => {\n                states.push(new_state);\n                nodes.push(" ++ n.node ++ L "::from_terminal(quasiterminals.next().unwrap().try_into_terminal().unwrap()));\n            }\n\n            " ++ n.action ++ L "::Reduce(rule_kind) => {\n                let (new_node, new_node_kind) = pop_and_reduce(&mut states, &mut nodes, rule_kind);\n                nodes.push(new_node);\n                let temp_top_state = *states.last().unwrap();\n                let Some(new_state) = get_goto(temp_top_state, new_node_kind) else {\n                    return Err(quasiterminals.next().unwrap().try_into_terminal().ok());\n                };\n                states.push(new_state);\n            }\n\n            " ++ n.action ++ L "::Accept => {\n                return Ok(" ++ m.startType ++ L "::try_from(nodes.pop().unwrap()).ok().unwrap());\n            }\n\n            " ++ n.action ++ L "::Err => {\n                return Err(quasiterminals.next().unwrap().try_into_terminal().ok());\n            }\n        }\n    }\n}\n\nenum " ++ n.quasiterminal ++ L " {\n    Terminal(" ++ T ++ L "),\n    " ++ n.eof ++ L ",\n}\n\n#[derive(Clone, Copy, Debug)]\nenum " ++ n.quasiterminalKind ++ L " {\n" ++
   indent 1 (joinNl (m.tenumVariants.zipIdx.map fun ((v, _), i) => v ++ L " = " ++ natToStr i ++ L ",")) ++
   L "\n    " ++ n.eof ++ L " = " ++ natToStr m.tenumVariants.length ++ L ",\n}\n\n#[derive(Clone, Copy, Debug)]\nenum " ++ n.nonterminalKind ++ L " {\n" ++
   indent 1 (joinNl (m.nonterminals.zipIdx.map fun (nt, i) => nt ++ L " = " ++ natToStr i ++ L ",")) ++
